@@ -190,11 +190,9 @@ class IrToWasmCompiler:
         )  # Start with 10 pages?
         for memid, addr, data in self.initial_memory:
             offset = [components.Instruction("i32.const", addr)]
-            self.add_definition(
-                components.Data(
-                    components.Ref("memory", index=memid), offset, data
-                )
-            )
+            data_id = len(self.definitions["data"])
+            mode = (components.Ref("memory", index=memid), offset)
+            self.add_definition(components.Data(data_id, mode, data))
 
         if self.pointed_functions:
             indexes = self.pointed_functions
